@@ -42,9 +42,12 @@ def run_one(case, r, seed, encoding="utf-8", variant="main"):
     if variant == "printable":       # junk restricted to what the configured stdout can encode
         surrogates = False
         nonascii = (encoding or "ascii").lower().replace("-", "") == "utf8"
-    sigs = gamma.build_sigmap(case, keys, Pb, Qb, r, nonascii=nonascii, surrogates=surrogates)
+    names = {}
+    sigs = gamma.build_sigmap(case, keys, Pb, Qb, r, nonascii=nonascii, surrogates=surrogates, names_out=names)
     env = {"signatures": sigs, "signed": P}
     auth = gamma.auth_list(case["auth"], keys, r, dups=True)
+    if case.get("authalt"):
+        auth.insert(r.randrange(len(auth) + 1), names["alt"])       # the same alternative spelling in the authorized list
     gamma.prime_related(case, keys, sigs, Q)
     out, exc, printed = lib.call(auth_mod.verify_signable, env, auth, case["thr"], gpg=case["gpg"], encoding=encoding)
     return {"variant": variant, "encoding": encoding, "observed": out, "exc": exc, "allowed": case["allowed"],
